@@ -131,7 +131,7 @@ Proof.
   rewrite Hdup.
   cbn [run_sm step N.eqb Pos.eqb].
   rewrite <- app_assoc. rewrite (val_run _ _ Hu).
-  cbn [app run_sm step N.eqb Pos.eqb]. rewrite app_nil_r, rev_involutive. reflexivity.
+  cbn [app run_sm step N.eqb Pos.eqb]. rewrite <- rev_alt, app_nil_r, rev_involutive. reflexivity.
 Qed.
 
 Lemma attrs_run l : forall m nm attrs rest, sp_ready m nm attrs -> attrs_ok (map fst attrs) l = true ->
@@ -273,7 +273,7 @@ Proof.
     { cbn in H. injection H as <-. right. left. exists []. split; reflexivity. }
     cbn [run_sm step] in H.
     destruct (N.eqb_spec c 39) as [->|H39].
-    { left. exists [], r, []. rewrite app_nil_r. repeat split. exact H. }
+    { left. exists [], r, []. rewrite app_nil_r. rewrite <- rev_alt in H. repeat split. exact H. }
     destruct (N.eqb_spec c 124) as [->|H124].
     + destruct r as [|d r'].
       { cbn in H. injection H as <-. right. right. exists [], []. repeat split. }
